@@ -118,7 +118,23 @@ let eitt_handler args =
   { model = "A " ^ show_eit (e_obs a) ^ " B " ^ show_eit (e_obs b) ^ " | heap a=0 f=0 bad=0 " ^ cnt_str c;
     spec = "A " ^ show_eit sa ^ " B " ^ show_eit sb; dom = clean c }
 
+(* utl::tuple / tuplev2 against std::tuple: every form yields the list of the source's elements *)
+let tup_handler args =
+  match args with
+  | _impl :: form :: n :: _r :: _r2 :: base :: rest ->
+      let n = nat_of_int (int_of_z (getI n)) and base = getI base in
+      let l = (match getS form with
+        | "val" | "copy" | "asg" | "conv" | "casg" | "mk" -> tup_vals base n
+        | "def" -> List.map (fun _ -> z_of_int 0) (tup_vals base n)
+        | "cat" -> (match rest with [m] -> tup_cat (tup_vals base n) (tup_vals (Z.add base (z_of_int 100)) (nat_of_int (int_of_z (getI m)))) | _ -> failwith "cat")
+        | "app" -> tup_append (tup_vals base n) (Z.add base (z_of_int 300))
+        | f -> failwith ("tuple form " ^ f)) in
+      let str = String.concat "," (List.map string_of_z l) in
+      both ("ok " ^ str ^ " | std " ^ str) true
+  | _ -> failwith "tup"
+
 let () =
+  register "tup" tup_handler;
   register "vec" vec_handler; register "svec" svec_handler; register "small" small_handler; register "smalls" smalls_handler; register "arr" arr_handler;
   register "may" (tag_handler may_op (Coq_inr z0, Coq_inr z0) show_may);
   register "mayt" mayt_handler;
